@@ -27,7 +27,8 @@ ASSUMPTIONS = [
 ]
 
 OPS = ["str", "pairs", "sequence", "dot_bracket", "fcfs", "all_dot_brackets", "elements", "convert_sim",
-       "convert_none", "without_pseudoknots", "without_isolated", "eq_fresh", "paired"]
+       "convert_none", "without_pseudoknots", "without_isolated", "eq_fresh", "paired",
+       "db_without_pseudoknots", "from_dotbracket", "fcfs_without_pseudoknots"]
 DERIVATIONS = ("without_pseudoknots", "without_isolated")
 PUBLIC_SLOTS = ["sequence", "elements", "dot_bracket", "fcfs", "all_dot_brackets"]
 ALL_SLOTS = ["sequence", "_BpSeq__stems_entries", "elements", "_BpSeq__regions", "dot_bracket", "fcfs",
@@ -154,6 +155,13 @@ def apply_op(env, op, obj, birth):
             raw = bool(obj == solve_engine.make_bpseq(birth))
         elif op == "paired":
             raw = [normalise(e) for e in obj.paired(only5to3=True)]
+        elif op == "db_without_pseudoknots":
+            # public method of the DotBracket object the structure hands out (and keeps memoised)
+            raw = obj.dot_bracket.without_pseudoknots()
+        elif op == "fcfs_without_pseudoknots":
+            raw = obj.fcfs.without_pseudoknots()
+        elif op == "from_dotbracket":
+            raw = c.BpSeq.from_dotbracket(obj.dot_bracket)
         else:
             raise HarnessError("unknown op " + op)
     except (HarnessError, zero_one.NodeCap, zero_one.Unsupported, KeyboardInterrupt):
@@ -208,6 +216,13 @@ def spec_problem(op, answer, birth, solver):
             got.append((int(f[1]), int(f[6]), int(f[2]) - int(f[1]) + 1))
         if sorted(got) != sorted(want):
             return ("element-stems-are-the-stems-of-the-structure", sorted(want), sorted(got))
+    elif op == "from_dotbracket":
+        if answer != ["BpSeq", [list(t) for t in birth]]:
+            return ("from_dotbracket-of-own-notation-is-the-structure", birth, answer)
+    elif op in ("db_without_pseudoknots", "fcfs_without_pseudoknots"):
+        got = oracles.decode(answer[2]) if len(answer[2]) == n else None
+        if answer[1] != seq or got is None or not got <= set(pairs) or set(answer[2]) - set(".()"):
+            return ("pseudoknot-free-notation-is-a-round-bracket-subset-of-the-structure", sorted(pairs), answer)
     elif op == "paired":
         want = [[i, seq[i - 1], j] for i, j in sorted(pairs)]
         if answer != want:
